@@ -13,7 +13,7 @@ import sys
 WS = ctypes.sizeof(ctypes.c_size_t)
 _cache = {}
 
-NOFALL = ("JUMP_ABSOLUTE", "JUMP_FORWARD", "RETURN_VALUE", "RAISE_VARARGS", "RERAISE")
+NOFALL = ("JUMP_ABSOLUTE", "JUMP_FORWARD", "JUMP_BACKWARD", "JUMP_BACKWARD_NO_INTERRUPT", "RETURN_VALUE", "RETURN_CONST", "RAISE_VARARGS", "RERAISE")
 
 
 def depths(code):
@@ -24,6 +24,11 @@ def depths(code):
     by_off = dict((i.offset, k) for k, i in enumerate(ins))
     depth = {}
     work = [(0, 1 if ins and ins[0].opname == "GEN_START" else 0)]
+    if sys.version_info >= (3, 11):
+        # zero-cost exception handling: handlers are not jump targets; the table says to which
+        # depth the stack is cut before the exception (and, if asked, the last instruction) is pushed
+        for e in dis._parse_exception_table(code):
+            work.append((by_off[e.target], e.depth + 1 + (1 if e.lasti else 0)))
     while work:
         k, d = work.pop()
         if k >= len(ins):
@@ -39,7 +44,11 @@ def depths(code):
             work.append((by_off[i.argval], d + dis.stack_effect(op, arg, jump=True)))
         if i.opname in NOFALL:
             continue
-        work.append((k + 1, d + (dis.stack_effect(op, arg, jump=False) if isjump else dis.stack_effect(op, arg))))
+        if i.opname == "RETURN_GENERATOR":
+            eff = 1  # leaves the new generator on the stack (POP_TOP follows); dis says 0
+        else:
+            eff = dis.stack_effect(op, arg, jump=False) if isjump else dis.stack_effect(op, arg)
+        work.append((k + 1, d + eff))
     if len(_cache) > 512:
         _cache.clear()
     _cache[id(code)] = (code, depth)
@@ -58,6 +67,52 @@ def _opname_at(code, offset):
             _opnames.clear()
         _opnames[id(code)] = m
     return m[1].get(offset)
+
+
+def owned_slot_range(frame, impl):
+    """CPython >= 3.11: (address of the first value-stack slot, number of slots the frame owns
+    right now) of `frame`, whose thread must be parked (or the frame suspended / finished).
+    impl = stackscope._lowlevel_cpython_311 (for its struct layouts).  None if unknown."""
+    assert sys.version_info >= (3, 11)
+    fp = impl.FrameObjectFramePointer.from_address(id(frame)).f_frame
+    if not fp:
+        return None
+    ifr = impl.InterpreterFrame.from_address(fp)
+    co = frame.f_code
+    nlp = len(set(co.co_varnames + co.co_cellvars)) + len(co.co_freevars)
+    base = fp + ctypes.sizeof(impl.InterpreterFrame) + WS * nlp
+    if ifr.owner == impl.FRAME_OWNED_BY_FRAME_OBJECT:
+        return base, 0  # finished: owns nothing any more
+    if ifr.stacktop != -1:
+        n = ifr.stacktop - nlp
+        if frame.f_lasti >= 0:
+            ins = _opname_at(co, frame.f_lasti)
+            d = depths(co).get(frame.f_lasti)
+            if ins == "YIELD_VALUE" and d is not None:
+                SELF_CHECKS[0] += 1
+                if d - 1 != n:
+                    from ..kernel import HarnessError
+
+                    raise HarnessError("static stack depth %d-1 at %s of %s, the interpreter recorded %d" % (d, ins, co.co_name, n))
+        return base, max(n, 0)
+    if frame.f_lasti < 0:
+        return base, 0
+    # f_lasti of a frame inside a call is the last inline-cache entry of its CALL
+    n = depth_at(co, frame.f_lasti)
+    if n is None:
+        return None
+    return base, n
+
+
+def depth_at(code, offset):
+    d = depths(code)
+    if offset in d:
+        return d[offset]
+    best = None
+    for off in d:
+        if off <= offset and (best is None or off > best):
+            best = off
+    return d.get(best) if best is not None else None
 
 
 def live_slots(frame, raw_struct, finished):
